@@ -590,6 +590,19 @@ for _v, _d in ((0, 'CHOICE { x [1], y [3] } untagged'), (1, '[0] EXPLICIT CHOICE
       defines=['VF_V=%d' % _v, 'VF_N=8'], unwind=11, cbmc=['--no-malloc-may-fail'],
       bound=_d + ' of stub alternatives; every split point of every input of at most 8 octets (two chunks)', min_props=80, timeout=1200, **CHB)
 
+CW = dict(harness='harness/h_constr_walk.c', units=[SK + 'constr_SEQUENCE.c', SK + 'constr_SET.c', SK + 'constr_SET_OF.c', SK + 'constr_CHOICE.c'],
+          link=[SK + 'constr_SEQUENCE.c', SK + 'constr_SET.c', SK + 'constr_SET_OF.c', SK + 'constr_CHOICE.c'],
+          fp_restrict=[(r'general_constraints\)$|::constr$', ['type_check', 'memb_check'])], cbmc=['--no-malloc-may-fail'], unwind=6,
+          trusted=['member constraint checkers are harness stubs; descriptors laid out by hand in the shape asn1c emits'])
+O(id='SEQUENCE_constraint', props=['C08'], kind='bounded', entry='h_SEQUENCE_constraint', functions=['SEQUENCE_constraint', 'SET_constraint'],
+  bound='SEQUENCE / SET of 4 members (type-level, member-level, OPTIONAL pointer, type-level): every value and presence combination', min_props=20, **CW)
+O(id='SEQUENCE_constraint.absent', props=['C08'], kind='bounded', entry='h_SEQUENCE_constraint_absent', functions=['SEQUENCE_constraint', 'SET_constraint'],
+  bound='as SEQUENCE_constraint, mandatory pointer member absent', min_props=20, **CW)
+O(id='SET_OF_constraint', props=['C08'], kind='bounded', entry='h_SET_OF_constraint', functions=['SET_OF_constraint'],
+  bound='lists of at most 3 elements, element constraint at member or at type level', min_props=20, **CW)
+O(id='CHOICE_constraint', props=['C08'], kind='bounded', entry='h_CHOICE_constraint', functions=['CHOICE_constraint', '_fetch_present_idx'],
+  bound='CHOICE of 2 alternatives (inline with member-level constraint, pointer with type-level constraint): every presence index 0..3', min_props=20, **CW)
+
 for _o in OBLIGATIONS:
     if _o.get('enforce') and _o.get('kind') in ('enforce', 'width') and _o.get('tier') == 'quick' and 'C19' not in _o['props']:
         _o['props'] = _o['props'] + ['C19']
